@@ -151,7 +151,15 @@ def family_db_views(seed):
     P = lambda k, v: ["put", a(k), a(v)]
     D = lambda k: ["delete", a(k)]
     S, F, C = ["snapshot"], ["flush"], ["compact"]
+    B = lambda *kv: ["batch"] + [a(x) if x != "!" else "!" for x in kv]
+    R = lambda mode: ["reopen", mode]
     fam = []
+    # recovery: a multi-operation batch is the last WAL record, then the same keys are rewritten
+    fam.append([B("a", "a1", "b", "b1", "c", "c1"), R("reuse"), P("b", "b2"), P("c", "c2"), D("a"), R("fresh"), P("a", "a3")])
+    fam.append([B("a", "a1", "b", "b1", "c", "c1"), R("reuse"), P("c", "c2")])
+    fam.append([B("a", "a1", "b", "b1", "c", "c1", "d", "d1"), R("fresh"), P("d", "d2"), D("c"), P("a", "a2")])
+    fam.append([P("x", "0"), B("a", "1", "b", "!", "c", "3", "a", "4"), R("fresh"), B("c", "!", "b", "5"), S, P("c", "6"), R("reuse"), P("b", "7")])
+    fam.append([B("k", "1", "k", "2", "k", "!", "k", "3"), F, B("k", "4", "j", "1"), R("fresh"), D("k"), F, C, R("reuse"), P("k", "5")])
     # a tombstone exactly at the oldest snapshot, older value below it, then compaction
     fam.append([P("k", "v1"), D("k"), S, F, C, P("j", "x"), F, C])
     fam.append([P("k", "v1"), S, D("k"), S, P("k", "v2"), S, F, C])
@@ -177,8 +185,10 @@ def family_db_views(seed):
             k = keys[rnd(len(keys) - (0 if h_ % 3 == 0 else 1))]
             if r < 9:
                 ops.append(P(k, "v%d" % i))
-            elif r < 14:
+            elif r < 13:
                 ops.append(D(k))
+            elif r < 14:
+                ops.append(B(k, "b%d" % i, keys[rnd(len(keys) - 1)], "!", keys[rnd(len(keys) - 1)], "c%d" % i) if h_ % 2 else R("reuse" if i % 2 else "fresh"))
             elif r < 16:
                 ops.append(S)
             elif r < 19:
